@@ -101,14 +101,15 @@ def view (s : St) (k : Key) : Val := match s.tw k with | some w => w.read | none
 /-- spec state: committed map `c` and the current transaction's own writes `o` -/
 structure Spec where
   c : Key → Val
-  o : Key → Option Val
+  o : Key → Option W
+  olog : List Key          -- keys the current transaction wrote (ghost, for the reported write list)
 
-def Spec.t (m : Spec) (k : Key) : Val := match m.o k with | some v => v | none => m.c k
+def Spec.t (m : Spec) (k : Key) : Val := match m.o k with | some w => w.read | none => m.c k
 
 def specStep (m : Spec) : Op → Spec × Option Val
   | .tget k => (m, some (m.t k))
-  | .tput k v => ({ m with o := upd m.o k (some v) }, none)
-  | .tdel k => ({ m with o := upd m.o k (some "") }, none)
+  | .tput k v => ({ m with o := upd m.o k (some (.put v)), olog := k :: m.olog }, none)
+  | .tdel k => ({ m with o := upd m.o k (some .del), olog := k :: m.olog }, none)
   | .bget k => (m, some (m.c k))
   | .bput k v => ({ m with c := upd m.c k v }, none)
   | .bdel k => ({ m with c := upd m.c k "" }, none)
@@ -117,11 +118,15 @@ def specRun (m : Spec) : List Op → Spec × List (Option Val)
   | [] => (m, [])
   | op :: ops => let r := specStep m op; let r2 := specRun r.1 ops; (r2.1, r.2 :: r2.2)
 
-def Spec.commit (m : Spec) : Spec := ⟨m.t, fun _ => none⟩
-def Spec.discard (m : Spec) : Spec := ⟨m.c, fun _ => none⟩
+def Spec.commit (m : Spec) : Spec := ⟨m.t, fun _ => none, []⟩
+def Spec.discard (m : Spec) : Spec := ⟨m.c, fun _ => none, []⟩
+
+/-- the write list a committing transaction reports, at the level of the spec -/
+def Spec.writes (m : Spec) : List (Key × W) :=
+  (sortKeys m.olog).filterMap (fun k => (m.o k).map (fun w => (k, w)))
 
 /-- abstraction map -/
-def abs (s : St) : Spec := ⟨cview s, fun k => (s.tw k).map W.read⟩
+def abs (s : St) : Spec := ⟨cview s, s.tw, s.twLog⟩
 
 /-- a transaction (or a stretch of batch-level bookkeeping): its stub calls and whether the tx
     layer is committed (method returned nil) or dropped -/
